@@ -11,6 +11,10 @@ import (
 // list of near-miss spellings (a digit short, a trailing ':', a second '.', a missing quote, ...).
 // Deterministic (no randomness): the cases aim at parsers that accept a leaf outside its lexical
 // class, which wf_leaves_b / wf_glue_b (Spec/LeafSpec.v) catch on the returned tree.
+// The "sep-*" sites do the same for the SEPARATORS between the leaves of a node (Spec/SepSpec.v,
+// wf_separators_b): every separator position of a booking, a balance line, a price, an @accrue
+// line, the @performance list and the line ends, spelled with one blank, several, a tab, a CR,
+// nothing, a newline, a non-breaking space, a comma; two commas, leading and trailing commas.
 
 func init() {
 	gens["C07leaf"] = genC07Leaf
@@ -55,6 +59,24 @@ var c07LeafSites = []struct {
 			"@accrue monthly 2020-01-01 2020-12-31 A", "@accruemonthly 2020-01-01 2020-12-31 A", "@accrued monthly 2020-01-01 2020-12-31 A",
 			"@accrue  monthly\t2020-01-01 2020-12-31   A", "@accrue monthly 2020-01-012020-12-31 A", "@accrue monthly2020-01-01 2020-12-31 A",
 			"@accrue monthly 2020-01-01 2020-12-31A"}},
+	{"sep-blank", // %s = what stands between two leaves where the grammar wants blank+
+		[]string{"2020-01-01 \"x\"\nA%sB 1 C\n", "2020-01-01 \"x\"\nA B%s1 C\n", "2020-01-01 \"x\"\nA B 1%sC\n",
+			"2020-01-01 \"x\"\nA B 1 C\nD%sE 2 F\n",
+			"2020-01-01 balance A%s1 C\n", "2020-01-01 balance A 1%sC\n", "2020-01-01 balance\nA%s1 C\n", "2020-01-01 balance\nA 1%sC\nD 2 E\n",
+			"2020-01-01 price A%s1 B\n", "2020-01-01 price A 1%sB\n", "2020-01-01 price A 1%sB",
+			"@accrue monthly%s2020-01-01 2020-12-31 A:B\n" + c07TrxTail, "@accrue monthly 2020-01-01%s2020-12-31 A:B\n" + c07TrxTail,
+			"@accrue monthly 2020-01-01 2020-12-31%sA:B\n" + c07TrxTail, "@accrue%smonthly 2020-01-01 2020-12-31 A:B\n" + c07TrxTail},
+		[]string{" ", "  ", "\t", " \t ", "\r", "", "\n", " \n", "\n ", "\u00a0", ",", " , ", "\v", "\f", "\u2003", ":", "-"}},
+	{"sep-perf", // the argument list of @performance
+		[]string{"@performance(%s)\n" + c07TrxTail, "@performance%s\n" + c07TrxTail},
+		[]string{"A,B", "A, B", "A ,B", " A , B ", "A,\tB", "A\t,B", "\tA\t", "A,,B", "A, ,B", "A,B,", "A,B, ", ",A", " ,A", ",", ", ", "", " ", "\t \t",
+			"A B", "A;B", "A,\nB", "A\n,B", "A,B\n", "\nA", "A,B,C,D", "A , B , C", "A,B)", "(A,B", "A,(B)", "A\u00a0,B", "A,\u00a0B", "(A)", "( A,B )", "()", "( )", "(,)", "(A,)", "(A,,B)", "(A B)"}},
+	{"sep-line", // what stands at the end of a line inside a directive
+		[]string{"2020-01-01 \"x\"%sA B 1 C\n", "2020-01-01 \"x\"\nA B 1 C%sD E 2 F\n", "2020-01-01 \"x\"\nA B 1 C%s", "2020-01-01 balance%sA 1 C\n",
+			"2020-01-01 balance\nA 1 C%sD 2 E\n", "2020-01-01 balance\nA 1 C%s", "@performance(A)%s" + c07TrxTail, "@accrue monthly 2020-01-01 2020-12-31 A%s" + c07TrxTail,
+			"@performance(A)%s@accrue monthly 2020-01-01 2020-12-31 A\n" + c07TrxTail, "@accrue monthly 2020-01-01 2020-12-31 A%s@performance(A)\n" + c07TrxTail,
+			"@performance(A)%s2020-01-01 open A\n", "@performance(A)%sinclude \"x\"\n"},
+		[]string{"\n", " \n", "\t\n", "\r\n", " \r\n", "  \t \n", "", " ", "\r", "\n\n", "\n \n", " \n ", "\n\t", " x\n", " # c\n", " // c\n", ";\n", "\u00a0\n", "\n\u00a0"}},
 	{"include-keyword",
 		[]string{"%s\n"},
 		[]string{"include \"x\"", "include\"x\"", "include  \t\"x\"", "includes \"x\"", "Include \"x\"", "includ \"x\"", "include\n\"x\""}},
